@@ -2,6 +2,7 @@ package engine
 
 import (
 	"fmt"
+	"strconv"
 	"strings"
 
 	"github.com/mk6i/mkdb/storage"
@@ -178,6 +179,20 @@ func c14Seed(w *world, name string) *world {
 			ok = w.do(st) && w.do(mkInsert(w.model, "t5", 1, false))
 		}
 		return okw(w, ok)
+	case strings.HasPrefix(name, "deep:t1x"):
+		// real page capacities, N rows: around the row count at which the root interior page of the table fills
+		// up and splits (290 separators, one leaf split per four rows)
+		n, _ := strconv.Atoi(strings.TrimPrefix(name, "deep:t1x"))
+		ok := w.do(mkCreate("t1", worldSchemas["t1"]))
+		for n > 0 && ok {
+			b := n
+			if b > 50 {
+				b = 50
+			}
+			ok = w.do(mkInsert(w.model, "t1", b, false))
+			n -= b
+		}
+		return okw(w, ok)
 	case name == "t1-empty":
 		return okw(w, w.do(mkCreate("t1", worldSchemas["t1"])))
 	}
@@ -191,6 +206,13 @@ func runC14(env *lib.Env, rep *lib.Report) {
 		maxM = 4
 		seeds = append(seeds, "t1x30", "t1x8+t2t3-crashed", "t1x12+t2x1")
 	}
+	// the window of row counts in which a table at real page capacities fills and splits its root interior page:
+	// only the statements that are valid (expected to succeed; an error must leave nothing behind) run there
+	for n := 1150; n <= 1172; n++ {
+		if env.Thorough() || n%2 == 0 || n >= 1160 && n <= 1168 {
+			seeds = append(seeds, fmt.Sprintf("deep:t1x%d", n))
+		}
+	}
 	rep.Bounds["seeds"] = seeds
 	rep.Bounds["rows per failing multi-row statement"] = fmt.Sprintf("1..%d, failing row at every position", maxM)
 	rep.Bounds["observation points"] = "immediately; after a timer flush; after clean shutdown + restart; after crash + recovery; after timer flush + crash + recovery"
@@ -201,6 +223,13 @@ func runC14(env *lib.Env, rep *lib.Report) {
 		opt := worldOpt{}
 		if strings.HasPrefix(seed, "small:") {
 			opt = worldOpt{Leaf: 3, Internal: 3}
+		}
+		if strings.HasPrefix(seed, "deep:") {
+			// a statement over a thousand rows legitimately fetches more pages than the per-operation allowance
+			// that detects cycles in small trees
+			saved := worldFuel
+			worldFuel = 4000000
+			defer func() { worldFuel = saved }()
 		}
 		w := newWorld(c, opt)
 		defer func() { w.destroy() }()
@@ -221,6 +250,15 @@ func runC14(env *lib.Env, rep *lib.Report) {
 		}
 		before := w.fullDump()
 		fs := failingStatements(w, maxM)
+		if strings.HasPrefix(seed, "deep:") {
+			var valid []failStmt
+			for _, f := range fs {
+				if strings.HasPrefix(f.Class, "valid/") {
+					valid = append(valid, f)
+				}
+			}
+			fs = valid
+		}
 		f := fs[c.Choose(len(fs), "failing-stmt")]
 		c.Logf("%s   [class %s, first failing row %d of %d]", clip(f.SQL, 200), f.Class, f.K, f.M)
 		err := w.exec(f.SQL)
@@ -235,6 +273,7 @@ func runC14(env *lib.Env, rep *lib.Report) {
 				c.Tag("statement-panicked")
 			}
 		}
+		c.Logf("  refused with: %s", clip(err.Error(), 300))
 		c.Tag("class:" + f.Class)
 		if f.K >= 2 {
 			c.NonTrivial()
